@@ -195,6 +195,7 @@ def canonicalise(tree):
         for c in getattr(node, "cases", None) or []:
             c.body = block(c.body, scope)
     rec(tree, tree)
+    _inline_attribute_aliases(tree)
     # `CONST == x` -> `x == CONST`; `<non-name> == name` -> `name == <non-name>` (same for !=)
     for c in ast.walk(tree):
         if isinstance(c, ast.Compare) and len(c.ops) == 1 and isinstance(c.ops[0], (ast.Eq, ast.NotEq)):
@@ -203,6 +204,74 @@ def canonicalise(tree):
                     (isinstance(r, ast.Name) and not isinstance(l, (ast.Name, ast.Constant))):
                 c.left, c.comparators = r, [l]
     return tree
+
+
+def _inline_attribute_aliases(tree):
+    """`t = p.q.r` where `t` is bound exactly once in the function, `p` is never re-bound there and `p.q.r` is not stored to
+    between the binding and the last use of `t`, all uses lying after the binding inside the block that holds it: every `t` is
+    read as `p.q.r` and the binding goes (a local alias of an attribute chain is the chain)."""
+    import copy as _copy
+    for fn in [n for n in ast.walk(tree) if isinstance(n, (ast.FunctionDef, ast.AsyncFunctionDef))]:
+        if any(n is not fn and isinstance(n, (ast.FunctionDef, ast.AsyncFunctionDef, ast.Lambda)) for n in ast.walk(fn)):
+            continue          # closures: leave alone
+        stores, attr_stores, globs = {}, [], set()
+        params = {a.arg for a in fn.args.posonlyargs + fn.args.args + fn.args.kwonlyargs}
+        if fn.args.vararg:
+            params.add(fn.args.vararg.arg)
+        if fn.args.kwarg:
+            params.add(fn.args.kwarg.arg)
+        for n in ast.walk(fn):
+            if isinstance(n, ast.Name) and isinstance(n.ctx, (ast.Store, ast.Del)):
+                stores[n.id] = stores.get(n.id, 0) + 1
+            elif isinstance(n, ast.Attribute) and isinstance(n.ctx, (ast.Store, ast.Del)):
+                attr_stores.append((ast.unparse(n), n.lineno))
+            elif isinstance(n, (ast.Global, ast.Nonlocal)):
+                globs |= set(n.names)
+
+        def chain_base(e):
+            d = 0
+            while isinstance(e, ast.Attribute):
+                e = e.value
+                d += 1
+            return (e.id, d) if isinstance(e, ast.Name) else (None, 0)
+        cands = {}      # name -> (assign stmt, block list)
+
+        def scan(stmts):
+            for st in stmts:
+                if isinstance(st, ast.Assign) and len(st.targets) == 1 and isinstance(st.targets[0], ast.Name):
+                    t = st.targets[0].id
+                    base, depth = chain_base(st.value)
+                    if base is not None and depth >= 1 and stores.get(t, 0) == 1 and t not in params and t not in globs \
+                            and stores.get(base, 0) == 0 and t != base:
+                        cands[t] = (st, stmts)
+                for fld in ("body", "orelse", "finalbody"):
+                    v = getattr(st, fld, None)
+                    if isinstance(v, list) and v and isinstance(v[0], ast.stmt):
+                        scan(v)
+                for h in getattr(st, "handlers", None) or []:
+                    scan(h.body)
+        scan(fn.body)
+        for t, (st, blk) in list(cands.items()):
+            uses = [n.lineno for n in ast.walk(fn) if isinstance(n, ast.Name) and n.id == t and isinstance(n.ctx, ast.Load)]
+            end = max(getattr(x, "end_lineno", x.lineno) or x.lineno for x in blk)
+            txt = ast.unparse(st.value)
+            ok = bool(uses) and min(uses) >= st.lineno and max(uses) <= end and \
+                not any((a == txt or txt.startswith(a + ".")) and st.lineno <= ln <= max(uses) for (a, ln) in attr_stores)
+            # the binding statement itself must not be the use line (t = p.q; on one line with its use is impossible)
+            if not ok or any(u == st.lineno for u in uses):
+                del cands[t]
+        if not cands:
+            continue
+
+        class Sub(ast.NodeTransformer):
+            def visit_Name(self, node):
+                if isinstance(node.ctx, ast.Load) and node.id in cands:
+                    return ast.copy_location(_copy.deepcopy(cands[node.id][0].value), node)
+                return node
+        for t, (st, blk) in cands.items():
+            blk[:] = [x for x in blk if x is not st] or [ast.copy_location(ast.Pass(), st)]
+        Sub().visit(fn)
+        ast.fix_missing_locations(fn)
 
 
 class ModuleInfo:
